@@ -340,7 +340,7 @@ def _get(obj, path):
     return cur
 
 
-def match_known(known, prop, clauses, event, case_ops):
+def match_known(known, prop, clauses, event, case_ops, events=()):
     """A finding matches when property and clause agree and every path in
     `event` / `anyop` selects the stated value."""
     for k in known:
@@ -355,6 +355,8 @@ def match_known(known, prop, clauses, event, case_ops):
                 break
         if ok and k.get("anyop"):
             ok = any(all(_get(op, p) == v for p, v in k["anyop"].items()) for op in case_ops if isinstance(op, dict))
+        if ok and k.get("anyevent"):
+            ok = any(all(_get(ev, p) == v for p, v in k["anyevent"].items()) for ev in events if isinstance(ev, dict))
         if ok:
             return k
     return None
